@@ -20,7 +20,7 @@ META = {
     "rule": "case = (host, no_proxy entry) / (ip, block) / (env+option combination, scheme) / (proxy reply, scheme, credentials); distinct by that tuple; non-trivial when a proxy source or a no_proxy entry is present",
     "exhaustive": {"quick": True, "thorough": True},
     "exhaustive_space": {"quick": "84 hosts x 84 leading-dot domains; 33 prefix lengths x edge addresses; 2^5 proxy-source subsets x 2 schemes x 4 no_proxy sources",
-                         "thorough": "same + 20 random blocks per prefix length and all reply/credential combinations"},
+                         "thorough": "340 hosts x 340 leading-dot domains (labels {a,b,ab,ba}, up to 4 labels); 300 random canonical blocks per prefix length with edge addresses; all reply/credential combinations"},
     "bounds": "SOCKS proxies not reachable (python_socks absent); lower/upper-case env precedence, user-only credentials and non-canonical CIDR blocks recorded, not judged",
     "required_counters": ["exempt_cases", "proxied_cases", "tunnel_cases"],
     "assumptions": ["python_socks absent"],
@@ -112,7 +112,7 @@ def run(res, tier, seed, shard, nshards):
             res.violation("proxy-info", f"{tag}: {got!r}", {"host": host, "no_proxy": lst}, **vfields)
 
     # (a) names x leading-dot domains -----------------------------------------
-    hosts = names()
+    hosts = names(3 if tier == "quick" else 4)
     for hi, h in enumerate(hosts):
         if hi % nshards != shard:
             continue
@@ -126,9 +126,9 @@ def run(res, tier, seed, shard, nshards):
         decide(h, False, [], "empty", rule="none")
     # (b) IPv4 blocks -------------------------------------------------------------
     for p in range(33):
-        if p % nshards != shard % 33 and nshards <= 33 and (p % nshards) != shard:
+        if p % nshards != shard:
             continue
-        reps = 2 if tier == "quick" else 20
+        reps = 2 if tier == "quick" else 300
         for _ in range(reps):
             hostmask = (1 << (32 - p)) - 1
             base = rng.getrandbits(32) & ~hostmask & 0xFFFFFFFF
